@@ -4,6 +4,8 @@ package scanfam
 
 import (
 	"fmt"
+	"os"
+	"path/filepath"
 	"testing"
 
 	"github.com/google/osv-scalibr/detector"
@@ -29,6 +31,7 @@ type c08Case struct {
 	Orders      []map[string][]string `json:"orders"` // for single-root cases: listing orders to compare
 	Detectors   [][]findingSpec       `json:"detectors,omitempty"`
 	MultiRoot   bool                  `json:"multi_root"`
+	RealFS      bool                  `json:"real_fs,omitempty"` // multi-root cases: roots are real temp directories
 	ReadDirFile bool                  `json:"read_dir_file"`
 }
 
@@ -55,6 +58,11 @@ func genC08(t *rapid.T) c08Case {
 	}
 	c.Cfg = genConfig(t, c.Trees[0], cfgOpts{AllowPaths: false, AllowSize: true})
 	c.Cfg.StoreAbsolutePath = false
+	if c.MultiRoot {
+		c.RealFS = rapid.Bool().Draw(t, "real_fs")
+		c.Cfg.StoreAbsolutePath = rapid.Bool().Draw(t, "store_abs")
+		c.Cfg.DirsToSkip = nil // skip lists are per-root absolute paths on a real file system
+	}
 	// extractors built to tie on sort keys: small name pool, several packages per file
 	c.Exts = genExts(t, c.Trees[0], 3, rapid.IntRange(1, 3).Draw(t, "name_pool"))
 	for i := range c.Exts {
@@ -218,8 +226,39 @@ func propC08(c c08Case) (ev.Outcome, error) {
 	var roots []*scalibrfs.ScanRoot
 	var union []recext.PkgKey
 	rootsWithPkgs := 0
-	for _, tr := range c.Trees {
-		single := runScan(virtualRoot(memfs.New(tr, memfs.Options{ReadDirFile: c.ReadDirFile})), c.Cfg, c.Exts, nil)
+	mkRoot := func(i int, tr memfs.Tree) (*scalibrfs.ScanRoot, error) {
+		return &scalibrfs.ScanRoot{FS: memfs.New(tr, memfs.Options{ReadDirFile: c.ReadDirFile}), Path: ""}, nil
+	}
+	if c.RealFS {
+		base, err := os.MkdirTemp(os.Getenv("VERIF_SCRATCH"), "c08-real-")
+		if err != nil {
+			return o, nil
+		}
+		defer os.RemoveAll(base)
+		mkRoot = func(i int, tr memfs.Tree) (*scalibrfs.ScanRoot, error) {
+			d := filepath.Join(base, fmt.Sprintf("root%d", i))
+			if _, err := os.Stat(d); err != nil {
+				if err := os.Mkdir(d, 0o755); err != nil {
+					return nil, err
+				}
+				if err := materialise(d, tr); err != nil {
+					return nil, err
+				}
+			}
+			return scalibrfs.RealFSScanRoot(d), nil
+		}
+		o.Classes = append(o.Classes, "multi_root_real_fs")
+		if c.Cfg.StoreAbsolutePath {
+			o.Classes = append(o.Classes, "multi_root_real_fs_absolute_paths")
+		}
+	}
+	for i, tr := range c.Trees {
+		r1, err := mkRoot(i, tr)
+		if err != nil {
+			o.Classes = append(o.Classes, "real_fs_materialise_failed")
+			return o, nil
+		}
+		single := runScan([]*scalibrfs.ScanRoot{r1}, c.Cfg, c.Exts, nil)
 		if single.Panic != nil {
 			return o, fmt.Errorf("scan panicked: %v", single.Panic)
 		}
@@ -227,7 +266,8 @@ func propC08(c c08Case) (ev.Outcome, error) {
 		if len(single.Packages) > 0 {
 			rootsWithPkgs++
 		}
-		roots = append(roots, &scalibrfs.ScanRoot{FS: memfs.New(tr, memfs.Options{ReadDirFile: c.ReadDirFile}), Path: ""})
+		r2, _ := mkRoot(i, tr)
+		roots = append(roots, r2)
 	}
 	multi := runScan(roots, c.Cfg, c.Exts, nil)
 	if multi.Panic != nil {
